@@ -54,7 +54,7 @@ def run(ctx):
     def chk(case):
         check_case(case, ctx)
 
-    ctx.run_hypothesis(gfi_hist.st_history(CFG, nops=(1, 2)), chk, ctx.pick(7, 7), salt="main")
+    ctx.run_hypothesis(gfi_hist.st_history(CFG, nops=(1, 2)), chk, ctx.pick(6, 6), salt="main")
 
 
 def replay(ctx, case):
